@@ -33,6 +33,10 @@ func (m *JCModel) Distance(seq1 []uint8, seq2 []uint8, weights []float64) (float
 	diff, total := countDiffs(seq1, seq2, m.selectedSites, weights, false)
 	diff = diff / total
 	b := 1. - 4.*diff/3.
+	if !(b > 0) {
+		// The estimator is undefined (saturated pair, or no comparable site)
+		return math.Inf(1), nil
+	}
 	if m.gamma {
 		dist = .75 * m.alpha * (math.Pow(b, -1./m.alpha) - 1.)
 	} else {
